@@ -44,6 +44,12 @@ def handleXdrSrc : List Sexp → Option String
   | [atom "xdr-src-store", atom c, atom big, list shape, list vs] => do
     let a := storeC (← NChar.ofCode c) (big == "1") (← shape.mapM asNat?) (← vs.mapM asInt?)
     pure (toString (list [list (a.strides.map fun s => atom (toString s)), atom (bytesToHex a.buf)]))
+  | [atom "xdr-src-build", atom c, atom big, step, pre, fill, list shape, list vs] => do
+    -- `Rep.build`: strides, offset and memory of the array the representation lays out
+    let r : Rep := ⟨(← NChar.ofCode c), big == "1", (← asNat? step), (← asNat? pre), UInt8.ofNat (← asNat? fill)⟩
+    let a := r.build (← shape.mapM asNat?) (← vs.mapM asInt?)
+    pure (toString (list [list (a.strides.map fun s => atom (toString s)), atom (toString a.offset),
+      atom (bytesToHex a.buf)]))
   | [atom "xdr-src-rec", list tys, list cells] => do
     pure (srcOut (encCellsFlat (← tys.mapM xdrTy?) (← cells.mapM xdrCell?)))
   | [atom "xdr-src-cellarr", atom big, c] => do
